@@ -62,6 +62,7 @@ type mutant struct {
 	wrapDropsDot        bool // a dotted list that is wrapped over several lines loses its dot
 	semicolonNoPipes    bool // ';' missing from the needs-quoting table
 	capitalizeAll       bool // :capitalize also applied to strings
+	readerLeaksEscBuf   bool // READER mutant: the un-escape buffer of a string leaks into the next |symbol|
 }
 
 var mutants = []mutant{
@@ -74,6 +75,7 @@ var mutants = []mutant{
 	{name: "dotted list loses its dot when wrapped over lines", wrapDropsDot: true},
 	{name: "';' missing from the symbol needs-quoting table", semicolonNoPipes: true},
 	{name: "*print-case* applied to string contents", capitalizeAll: true},
+	{name: "reader keeps the un-escape buffer of a string and prepends it to the next |symbol|", readerLeaksEscBuf: true},
 }
 
 // ------------------------------------------------------------------ printer
@@ -372,17 +374,23 @@ func refPrint(v *val, c cfg, m *mutant) string {
 type refReader struct {
 	s   string
 	pos int
+	// leak models a reader that keeps the buffer it fills while un-escaping a
+	// string and does not clear it when a |symbol| starts (mutant only).
+	leak bool
+	buf  string
 }
 
 // refRead reads exactly one object from text.
-func refRead(text string) (v *val, err error) {
+func refRead(text string) (v *val, err error) { return refReadWith(text, false) }
+
+func refReadWith(text string, leak bool) (v *val, err error) {
 	defer func() {
 		if rec := recover(); rec != nil {
 			err = fmt.Errorf("%v", rec)
 			v = nil
 		}
 	}()
-	r := &refReader{s: text}
+	r := &refReader{s: text, leak: leak}
 	v = r.value()
 	r.ws()
 	if r.pos != len(r.s) {
@@ -465,6 +473,7 @@ func (r *refReader) value() *val {
 	case '"':
 		r.pos++
 		var b strings.Builder
+		escaped := false
 		for {
 			if len(r.s) <= r.pos {
 				panic("string not terminated")
@@ -472,12 +481,16 @@ func (r *refReader) value() *val {
 			ch := r.s[r.pos]
 			r.pos++
 			if ch == '"' {
+				if escaped {
+					r.buf = b.String()
+				}
 				return vStr(b.String())
 			}
 			if ch != '\\' {
 				b.WriteByte(ch)
 				continue
 			}
+			escaped = true
 			if len(r.s) <= r.pos {
 				panic("escape not terminated")
 			}
@@ -539,6 +552,10 @@ func (r *refReader) piped() string {
 		r.pos++
 		switch ch {
 		case '|':
+			if r.leak && r.buf != "" {
+				r.buf += b.String()
+				return r.buf
+			}
 			return b.String()
 		case '\\':
 			if len(r.s) <= r.pos {
